@@ -19,7 +19,7 @@ pub fn property() -> Property {
     Property {
         id: "C14",
         level: "exploration",
-        rule: "Exhaustive matrix of real TLS handshakes against local openssl servers (threads on 127.0.0.1; names mapped with the resolver hook H2) presenting fixture certificates: {leaf chained to the private CA, self-signed, unknown issuer, expired CA-signed leaf} x {URL host matches the certificate name, differs} x accept_invalid_certs {off,on} x accept_invalid_hostnames {off,on} x private CA added as root {no,yes} x path {direct https, CONNECT through a real loopback proxy thread, https proxy (TLS to the proxy AND nested TLS to the origin; the proxy's certificate is varied separately)} x where the flags/root were set {session, request, clone of the session, session/request with every flag first switched on and then set to its final value, unrelated setters on session and request while the settings are shared with live requests, and a SIBLING request / the ORIGINAL session that must stay unaffected}; plus 'pinned leaf' cells: the self-signed certificate the server presents (valid, or expired) is itself added as a root - validity period and name must still be enforced (whether a valid pinned leaf is anchored is backend-specific: recorded, not judged). Oracle: truth table ok = (anchored or certs_off) and (in validity or certs_off) and (name ok or names_off or certs_off), evaluated with the flags of THAT request; safety (success => ok) is always judged, liveness (ok => success) for the CA->leaf topology on DNS names and whenever certs_off waives everything; the error kind of rejections is recorded; a rejected handshake must not have delivered the request to the server. Non-trivial: every cell; distinct = hash(cell).",
+        rule: "Exhaustive matrix of real TLS handshakes against local openssl servers (threads on 127.0.0.1; names mapped with the resolver hook H2) presenting fixture certificates: {leaf chained to the private CA, self-signed, unknown issuer, expired CA-signed leaf} x {URL host matches the certificate name, differs} x accept_invalid_certs {off,on} x accept_invalid_hostnames {off,on} x private CA added as root {no,yes} x path {direct https, CONNECT through a real loopback proxy thread, https proxy (TLS to the proxy AND nested TLS to the origin; the proxy's certificate is varied separately)} x where the flags/root were set {session, request, clone of the session, session/request with every flag first switched on and then set to its final value, unrelated setters on session and request while the settings are shared with live requests, and a SIBLING request / the ORIGINAL session that must stay unaffected}; plus 'sibling roots' (two sessions/requests that each added a different root, handshaking one after the other in both orders, keep their own anchors) and 'pinned leaf' cells: the self-signed certificate the server presents (valid, or expired) is itself added as a root - validity period and name must still be enforced (whether a valid pinned leaf is anchored is backend-specific: recorded, not judged). Oracle: truth table ok = (anchored or certs_off) and (in validity or certs_off) and (name ok or names_off or certs_off), evaluated with the flags of THAT request; safety (success => ok) is always judged, liveness (ok => success) for the CA->leaf topology on DNS names and whenever certs_off waives everything; the error kind of rejections is recorded; a rejected handshake must not have delivered the request to the server. Non-trivial: every cell; distinct = hash(cell).",
         assumptions: &["OpenSSL (server side and native-tls client side) / rustls implement the checks they are asked to perform; fixtures are what their names say (verified with `openssl verify` when generated)", "the system trust store does not contain the private CA (cells 'root not added' would reveal it)"],
         min_nontrivial: |t| t.pick(300, 1_000),
         gens,
@@ -41,6 +41,7 @@ fn gens(tier: Tier) -> Vec<Gen> {
         Gen { name: "connect-proxy", count: direct_cells(), exhaustive: true, run: run_connect_proxy },
         // https proxy: proxy certificate {good for pgood.test, wrong name, selfsigned} x origin cells (strided in quick)
         Gen { name: "ip-literal-hosts", count: (2 * 2 * 2 * 2 * 2 * 2) as u64, exhaustive: true, run: run_ip_literal },
+        Gen { name: "sibling-roots", count: (2 * 2 * 2) as u64, exhaustive: true, run: run_sibling_roots },
         Gen { name: "pinned-leaf", count: 2 * 2 * 2 * 2 * 3, exhaustive: true, run: run_pinned },
         Gen { name: "https-proxy", count: tier.pick(direct_cells(), direct_cells() * 3), exhaustive: tier == Tier::Thorough, run: run_https_proxy },
     ]
@@ -454,4 +455,39 @@ fn run_ip_literal(ctx: &mut Ctx, _rng: &mut Rng, index: u64) {
     judge(ctx, "sibling-or-original", false, false, &out_u, saw_u, &|| descr("request created before the flags/root were set: defaults apply"));
     ctx.count("path_ip_literal_host", 1);
     ctx.nontrivial(format!("ipl{index}").as_bytes());
+}
+
+/// two sibling sessions / requests that each added a DIFFERENT root (same flags, same number of
+/// roots) keep their own trust anchors, whichever handshakes first
+fn run_sibling_roots(ctx: &mut Ctx, _rng: &mut Rng, index: u64) {
+    let order_ab = index % 2 == 0;
+    let on_request = (index / 2) % 2 == 1;
+    let server_cert = ["good", "unknown"][((index / 4) % 2) as usize]; // issued by `ca` / by `otherca`
+    let host = "good.test";
+    let url = format!("https://{host}/c14");
+    let mk = |root: &'static str| -> RequestBuilder {
+        let mut s = Session::new();
+        s.connect_timeout(std::time::Duration::from_secs(5));
+        s.read_timeout(std::time::Duration::from_secs(5));
+        if on_request {
+            s.post(&url).add_root_certificate(tlsfix::load_cert(root))
+        } else {
+            s.add_root_certificate(tlsfix::load_cert(root));
+            s.post(&url)
+        }
+    };
+    let run = |root: &'static str| -> (Outcome, bool) {
+        let srv = origin_server(server_cert);
+        set_resolver_override(host, Some(vec![SocketAddr::from(([127, 0, 0, 1], srv.port))]));
+        let out = outcome(mk(root).text("c14 body").send());
+        (out, saw_request(&srv.finish()))
+    };
+    let roots: [&'static str; 2] = if order_ab { ["ca", "otherca"] } else { ["otherca", "ca"] };
+    for (k, root) in roots.iter().enumerate() {
+        let anchored = (server_cert == "good") == (*root == "ca");
+        let (out, saw) = run(root);
+        judge(ctx, if k == 0 { "target" } else { "sibling-or-original" }, anchored, anchored, &out, saw, &|| format!("sibling roots: server certificate `{server_cert}`, this {} added root `{root}` ({} of the two handshakes; the other one added the other root)", if on_request { "request" } else { "session" }, if k == 0 { "first" } else { "second" }));
+    }
+    ctx.count("sibling_root_pairs", 1);
+    ctx.nontrivial(format!("sr{index}").as_bytes());
 }
